@@ -800,7 +800,11 @@ Definition alloc_bound_kb (body_kb : Z) : Z := (65536 + 64 * body_kb)%Z.
 (* the bytes the server agrees to look at for one request: the body on the wire, or -- under a Content-Encoding -- what it
    decodes to, up to the configured limit (helpers.LimitDecoded hands no more than that to the route).  The allowance
    is taken on this size: it does not grow with the compression ratio beyond the operator's limit. *)
-Definition served_kb (ob : obs) : Z := Z.max (ob_body_kb ob) (Z.min (ob_decoded_kb ob) (ob_limit_kb ob)).
+(* fourth session: the limiter stands in front of bodies without Content-Encoding too (fix 4): the server looks at no
+   more than the limit whatever the client sends; served_kb_v3 is the allowance of the third session (the whole wire size) *)
+Definition served_kb_v3 (ob : obs) : Z := Z.max (ob_body_kb ob) (Z.min (ob_decoded_kb ob) (ob_limit_kb ob)).
+Definition served_kb (ob : obs) : Z :=
+  if (0 <? ob_limit_kb ob)%Z then Z.min (Z.max (ob_body_kb ob) (ob_decoded_kb ob)) (ob_limit_kb ob) else served_kb_v3 ob.
 
 (* size limit on snappy bodies: a block that declares more than the limit and whose decoded form WOULD be
    accepted must not be accepted (unless its compressed bytes happen to be a message themselves) *)
